@@ -129,6 +129,26 @@ func main() {
 			"and at decoder level every 1- and 2-byte deviation of the 83-byte hint section (2-byte: 16x16 alphabet quick, 256x256 thorough) and every 20-bit z pattern at lanes 0/1; oracle: library <=> specification verifier / reference decoder, accepted strings re-encode to themselves. " +
 			"non-trivial = a 'sharp' rogue input (a verifier lacking exactly that check accepts it) or an accepted deviation",
 		Assumptions: []string{"an end-to-end accepting witness for a verifier lacking only the monotone-count or over-count test needs a rare hint shape; those two tests are decided at decoder level", "sha3 trusted"}}
+	// (1z) rogue challenge: everything derived consistently from a challenge seed that is NOT the hash of (mu, w1)
+	ck.Domains = append(ck.Domains, &drv.Domain{Name: "rogue-challenge", Size: 32 * 8 * 2, Chunk: 16,
+		Desc: "signatures produced by the specification signer from a challenge seed with ONE bit flipped before the challenge polynomial, z and the hints are derived from it (every bit of every one of the 32 bytes, 2 keys): internally consistent, only the final comparison of the recomputed challenge seed with the published one can tell — must be rejected; sharp = the recomputed seed differs from the published one in exactly that bit",
+		Run: func(c *drv.Ctx, lo, hi int64) {
+			for i := lo; i < hi; i++ {
+				c.At(i)
+				bit, byteIdx, kn := int(i%8), int(i/8%32), int(i/256)
+				k := getKeys(dilscope.Seed(kn, c.Seed))
+				msg := []byte(fmt.Sprintf("rogue-challenge-%d", kn))
+				x := make([]byte, 32)
+				x[byteIdx] = 1 << uint(bit)
+				r := k.ref.Sign(msg, refdil.Skip{ChallengeXor: x})
+				if r.Sig == nil {
+					c.Outcome("no-signature")
+					continue
+				}
+				c.Nontrivial(1)
+				compare(c, i, "rogue-challenge", fmt.Sprintf("challenge seed byte %d bit %d flipped before derivation", byteIdx, bit), k, k.ref.PK, msg, r.Sig, true)
+			}
+		}})
 	// (1a) rogue z
 	zc := loadCorpus("z=0")
 	ck.Domains = append(ck.Domains, &drv.Domain{Name: "rogue-z-norm", Size: 400 + int64(len(zc)), Chunk: 8,
